@@ -275,11 +275,13 @@ impl ParserListener for Tap {
     }
     fn erase_in_display(&mut self, how: Option<u32>, private: Option<bool>) {
         crate::call::PRIVATE.with(|p| p.set(private));
+        crate::call::LAST_PRIVATE.with(|p| p.set(Some(private)));
         self.call(Call::EraseInDisplay(how));
         crate::call::PRIVATE.with(|p| p.set(None));
     }
     fn erase_in_line(&mut self, how: Option<u32>, private: Option<bool>) {
         crate::call::PRIVATE.with(|p| p.set(private));
+        crate::call::LAST_PRIVATE.with(|p| p.set(Some(private)));
         self.call(Call::EraseInLine(how));
         crate::call::PRIVATE.with(|p| p.set(None));
     }
@@ -297,6 +299,7 @@ impl ParserListener for Tap {
     }
     fn report_device_attributes(&mut self, mode: Option<u32>, private: Option<bool>) {
         crate::call::PRIVATE.with(|p| p.set(private));
+        crate::call::LAST_PRIVATE.with(|p| p.set(Some(private)));
         self.call(Call::ReportDeviceAttributes(mode));
         crate::call::PRIVATE.with(|p| p.set(None));
     }
